@@ -39,6 +39,21 @@ fn run(dir: &std::path::Path, args: &[OsString], stdin: Option<&[u8]>) -> Result
     Ok(Out { code: o.status.code(), stdout: o.stdout, stderr: o.stderr })
 }
 
+/// Run b3sum with standard input redirected from a regular file whose read offset has been advanced by `skip`
+/// bytes (what `{ read hdr; b3sum; } < file` gives): the "standard input" is what remains from the offset on.
+fn run_stdin_file(dir: &std::path::Path, args: &[OsString], data: &[u8], skip: usize) -> Result<Out, String> {
+    use std::io::{Seek, SeekFrom};
+    let p = dir.join("stdin-source.bin");
+    std::fs::write(&p, data).map_err(|e| format!("ENGINE: write: {}", e))?;
+    let mut f = std::fs::File::open(&p).map_err(|e| format!("ENGINE: open: {}", e))?;
+    f.seek(SeekFrom::Start(skip as u64)).map_err(|e| format!("ENGINE: seek: {}", e))?;
+    let mut cmd = Command::new(b3sum_bin());
+    cmd.current_dir(dir).args(args).stdout(Stdio::piped()).stderr(Stdio::piped()).env("RAYON_NUM_THREADS", "2").stdin(Stdio::from(f));
+    let o = cmd.output().map_err(|e| format!("ENGINE: cannot run {:?}: {}", b3sum_bin(), e))?;
+    let _ = std::fs::remove_file(&p);
+    Ok(Out { code: o.status.code(), stdout: o.stdout, stderr: o.stderr })
+}
+
 struct TempDir(PathBuf);
 impl TempDir {
     fn new() -> Result<Self, String> {
@@ -301,6 +316,11 @@ pub struct StdinCase {
     pub seek: Option<u64>,
     pub output: u8,
     pub no_mmap: bool,
+    /// 0 = a pipe; 1 = a regular file at offset 0; 2 = a regular file whose offset was advanced by `skip` bytes
+    #[serde(default)]
+    pub stdin_kind: u8,
+    #[serde(default)]
+    pub skip: u32,
 }
 
 pub fn check_stdin(c: &StdinCase) -> Result<(), String> {
@@ -340,7 +360,12 @@ pub fn check_stdin(c: &StdinCase) -> Result<(), String> {
     if c.dash {
         args.push("-".into());
     }
-    let out = run(&dir.0, &args, Some(&data))?;
+    let skip = match c.stdin_kind % 3 {
+        2 => core::cmp::min(c.skip as usize, data.len()),
+        _ => 0,
+    };
+    let out = if c.stdin_kind % 3 == 0 { run(&dir.0, &args, Some(&data))? } else { run_stdin_file(&dir.0, &args, &data, skip)? };
+    let data = data[skip..].to_vec();
     let kf = match &c.derive {
         Some(ctx) => b3spec::KeyFlags::derive_key(ctx.string().as_bytes()),
         None => b3spec::KeyFlags::hash(),
@@ -368,8 +393,9 @@ fn stdin_strategy(_tier: Tier) -> BoxedStrategy<StdinCase> {
         prop::option::weighted(0.3, gen::position_lattice()),
         0u8..4,
         any::<bool>(),
+        (prop_oneof![3 => Just(0u8), 1 => Just(1u8), 2 => Just(2u8)], prop_oneof![1u32..=100, 1u32..=70_000]),
     )
-        .prop_map(|(len, content, dash, derive, keyed, length, seek, output, no_mmap)| StdinCase { len, content, dash, derive, keyed, length, seek, output, no_mmap })
+        .prop_map(|(len, content, dash, derive, keyed, length, seek, output, no_mmap, (stdin_kind, skip))| StdinCase { len, content, dash, derive, keyed, length, seek, output, no_mmap, stdin_kind, skip })
         .boxed()
 }
 
@@ -633,10 +659,10 @@ pub fn subs() -> Vec<Box<dyn DynSub>> {
         }),
         Box::new(PropSub::<StdinCase> {
             name: "stdin-cli",
-            rule: "proptest: data on standard input with no file argument or an explicit `-`, x --derive-key / --length / --seek / --no-mmap / output form; oracle: the documented line with name `-` around spec S[seek..seek+length]; `--keyed -` (stdin is the key) must be refused with a non-zero status",
+            rule: "proptest: data on standard input (a pipe, a regular file at offset 0, or a regular file whose read offset was advanced first: the input is what remains) with no file argument or an explicit `-`, x --derive-key / --length / --seek / --no-mmap / output form; oracle: the documented line with name `-` around spec S[seek..seek+length]; `--keyed -` (stdin is the key) must be refused with a non-zero status",
             cases: (600, 10_000),
             strategy: stdin_strategy,
-            classify: |c| Classes::new(c.len > 65_536 || c.seek.is_some()).tag(c.dash, "explicit-dash").tag(!c.dash, "no-file-argument").tag(c.keyed && c.derive.is_none(), "--keyed-with-dash(refused)").tag(c.len == 0, "empty-stdin").tag(c.len > 65_536, "stdin>64KiB"),
+            classify: |c| Classes::new(c.len > 65_536 || c.seek.is_some()).tag(c.dash, "explicit-dash").tag(!c.dash, "no-file-argument").tag(c.keyed && c.derive.is_none(), "--keyed-with-dash(refused)").tag(c.len == 0, "empty-stdin").tag(c.len > 65_536, "stdin>64KiB").tag(c.stdin_kind % 3 == 0, "stdin=pipe").tag(c.stdin_kind % 3 == 1, "stdin=file").tag(c.stdin_kind % 3 == 2, "stdin=file-at-offset"),
             check: check_stdin,
             known: None,
             crumb: false,
